@@ -41,6 +41,15 @@ def _setup(chk, ctx) -> None:
     live = T.spec('self.statuses[i]', {'i': i}, boolean=True)
     short = T.spec('sum(map(len, self.hole_dealing_statuses)) > len(tuple(self.get_dealable_cards()))', boolean=True)
     facts = dict.fromkeys(['burn', 'boards', 'holes_live_only', 'draw_live_only', 'street_advance', 'fallback_boards', 'fallback_clears', 'no_fallback_keeps'], False)
+    refuted = set()
+
+    def upd(k, ok):
+        # every write of the kind must be the prescribed one (a second, overriding write refutes the flow)
+        if ok and k not in refuted:
+            facts[k] = True
+        elif not ok:
+            refuted.add(k)
+            facts[k] = False
     for p in ctx.paths(fi):
         if p.raised:
             continue
@@ -51,21 +60,21 @@ def _setup(chk, ctx) -> None:
             k = p.events.index(e)
             cs_before = [unversion(x.term) for x in p.events[:k] if x.kind == 'assume']
             if r == 'card_burning_status' and e.op == 'set':
-                facts['burn'] = v == T.spec('self.street.card_burning_status')
+                upd('burn', v == T.spec('self.street.card_burning_status'))
             if r == 'board_dealing_counts' and e.op == 'set':
-                facts['boards'] = v in (T.spec('[self.street.board_dealing_count] * self.starting_board_count'),
-                                        T.spec('self.starting_board_count * [self.street.board_dealing_count]'))
+                upd('boards', v in (T.spec('[self.street.board_dealing_count] * self.starting_board_count'),
+                                        T.spec('self.starting_board_count * [self.street.board_dealing_count]')))
             if r == 'hole_dealing_statuses' and e.op == 'call:extend':
-                facts['holes_live_only'] = t == ('sub', ('self', 'hole_dealing_statuses'), i) and live in cs_before \
-                    and v == ('tuple', (T.spec('self.street.hole_dealing_statuses'),))
+                upd('holes_live_only', t == ('sub', ('self', 'hole_dealing_statuses'), i) and live in cs_before \
+                    and v == ('tuple', (T.spec('self.street.hole_dealing_statuses'),)))
             if r == 'standing_pat_or_discarding_statuses' and e.op == 'set':
-                facts['draw_live_only'] = t == ('sub', ('self', 'standing_pat_or_discarding_statuses'), i) and live in cs_before \
-                    and v == T.spec('self.street.draw_status')
+                upd('draw_live_only', t == ('sub', ('self', 'standing_pat_or_discarding_statuses'), i) and live in cs_before \
+                    and v == T.spec('self.street.draw_status'))
             if r == 'board_dealing_counts' and e.op == '+=':
-                facts['fallback_boards'] = short in cs_before and v == T.spec('len(self.street.hole_dealing_statuses)') \
-                    and t[0] == 'sub' and t[2] == ('elem', T.spec('range(self.starting_board_count)'))
+                upd('fallback_boards', short in cs_before and v == T.spec('len(self.street.hole_dealing_statuses)') \
+                    and t[0] == 'sub' and t[2] == ('elem', T.spec('range(self.starting_board_count)')))
             if r == 'hole_dealing_statuses' and e.op == 'call:clear':
-                facts['fallback_clears'] = short in cs_before and t == ('sub', ('self', 'hole_dealing_statuses'), i)
+                upd('fallback_clears', short in cs_before and t == ('sub', ('self', 'hole_dealing_statuses'), i))
         if T.mk_not(short) in cs:
             facts['no_fallback_keeps'] |= not any(e.op in ('call:clear', '+=') and T.root_self_attr(e.term) in ('hole_dealing_statuses', 'board_dealing_counts') for e in p.writes())
         sets = [(e.op, unversion(e.value)) for e in p.writes() if T.root_self_attr(e.term) == 'street_index']
